@@ -111,7 +111,20 @@ func TestVerifC18(t *testing.T) {
 			run := 0
 			var lastRA *ndp.RouterAdvertisement
 			var lastFrom netip.Addr
+			flapAt := -1
+			if i%4 == 2 {
+				flapAt = nmsg / 2
+			}
 			for k := 0; k < nmsg && viol == ""; k++ {
+				if k == flapAt {
+					// the link flaps: the monitor is re-established on a new connection
+					// and goes on counting where it was (series are cumulative)
+					h.tr.Add(vfake.Event{Kind: "link_event"})
+					h.watchC <- 2 // netstate.LinkDown
+					time.Sleep(10 * time.Millisecond)
+					h.settle()
+					r.Count("sequences_with_link_flap", 1)
+				}
 				time.Sleep(steps[sr.Intn(len(steps))])
 				from := netip.MustParseAddr(senders[sr.Intn(len(senders))])
 				host := from.WithZone("").String()
